@@ -96,7 +96,7 @@ func bwFaultSweep(seed uint64) []scen {
 	// fault-free base with crash probes at every callback boundary and the torn-manifest sweep
 	add(func(c *bw.Scenario) { c.Post = []string{"crash-probe", "torn"} })
 	kinds := map[string][]string{
-		"fetch":    {"err", "torn", "cancel", "stall", "cancel-after"},
+		"fetch":    {"err", "torn", "torn-timeout", "cancel", "stall", "cancel-after"},
 		"versions": {"err", "empty"},
 		"source":   {"err"},
 		"find":     {"err-diag"},
